@@ -96,7 +96,9 @@ Definition stack_inv (lwork : Z) (s : stack) : Prop :=
   s_size s = lwork /\ 0 <= s_top1 s /\ s_top1 s <= s_top2 s /\ s_top2 s <= s_size s /\
   s_used s = s_top1 s + (s_size s - s_top2 s).
 
-(* HEAD blocks are stacked upwards from 0 to top1, TAIL blocks downwards from size to top2 *)
+(* HEAD blocks are stacked upwards from 0 to top1, TAIL blocks downwards from size to top2; above a TAIL block
+   there may be a gap: the alignment slack (0..7 bytes) that the allocator took with it, which a client that frees
+   the byte count it asked for does not give back *)
 Fixpoint head_chain (top : Z) (l : list (Z * Z)) : Prop :=
   match l with
   | [] => top = 0
@@ -105,8 +107,8 @@ Fixpoint head_chain (top : Z) (l : list (Z * Z)) : Prop :=
 
 Fixpoint tail_chain (size top : Z) (l : list (Z * Z)) : Prop :=
   match l with
-  | [] => top = size
-  | (off, b) :: t => 0 <= b /\ off = top /\ tail_chain size (off + b) t
+  | [] => top <= size
+  | (off, b) :: t => 0 <= b /\ top <= off /\ tail_chain size (off + b) t
   end.
 
 Definition ust_inv (lwork : Z) (u : ust) : Prop :=
@@ -114,35 +116,88 @@ Definition ust_inv (lwork : Z) (u : ust) : Prop :=
   head_chain (s_top1 (u_stack u)) (u_head u) /\
   tail_chain lwork (s_top2 (u_stack u)) (u_tail u).
 
-Lemma user_malloc_refused_unchanged : forall bytes e s,
-  fst (user_malloc bytes e s) = None -> snd (user_malloc bytes e s) = s.
+(* mod 8 facts *)
+Ltac lia8 := Z.div_mod_to_equations; lia.
+
+Lemma misalign_bounds : forall ba off, 0 <= misalign ba off < 8.
+Proof. intros. unfold misalign. lia8. Qed.
+
+Lemma tail_extra_bounds : forall ba bytes s, 0 <= tail_extra ba bytes s < 8.
+Proof. intros. unfold tail_extra. apply misalign_bounds. Qed.
+
+(* the offset handed out at the TAIL end is on an 8-byte boundary, whatever ba, top2 and bytes are *)
+Lemma tail_offset_aligned : forall ba top2 bytes,
+  misalign ba (top2 - (bytes + misalign ba (top2 - bytes))) = 0.
+Proof. intros. unfold misalign. lia8. Qed.
+
+Lemma user_malloc_refused_unchanged : forall ba bytes e s,
+  fst (user_malloc ba bytes e s) = None -> snd (user_malloc ba bytes e s) = s.
 Proof.
-  intros bytes e s. unfold user_malloc. destruct (stack_full bytes s); [reflexivity|].
-  destruct e; simpl; discriminate.
+  intros ba bytes e s. unfold user_malloc. destruct (stack_full bytes s); [reflexivity|].
+  destruct e; simpl; [discriminate|].
+  destruct (stack_full (bytes + tail_extra ba bytes s) s); [reflexivity|discriminate].
 Qed.
 
-Lemma user_malloc_granted : forall bytes e s off s',
-  user_malloc bytes e s = (Some off, s') ->
+(* a granted TAIL request takes  bytes + extra,  0 <= extra < 8,  and the block starts on an 8-byte boundary *)
+Lemma user_malloc_granted : forall ba bytes e s off s',
+  user_malloc ba bytes e s = (Some off, s') ->
   stack_full bytes s = false /\
   match e with
   | HEAD => off = s_top1 s /\ s' = mkStack (s_size s) (s_used s + bytes) (s_top1 s + bytes) (s_top2 s)
-  | TAIL => off = s_top2 s - bytes /\ s' = mkStack (s_size s) (s_used s + bytes) (s_top1 s) (s_top2 s - bytes)
+  | TAIL => let extra := tail_extra ba bytes s in
+            0 <= extra < 8 /\ stack_full (bytes + extra) s = false /\ misalign ba off = 0 /\
+            off = s_top2 s - (bytes + extra) /\
+            s' = mkStack (s_size s) (s_used s + (bytes + extra)) (s_top1 s) (s_top2 s - (bytes + extra))
   end.
 Proof.
-  intros bytes e s off s'. unfold user_malloc. destruct (stack_full bytes s); [discriminate|].
-  destruct e; intros H; inversion H; subst; auto.
+  intros ba bytes e s off s'. unfold user_malloc. destruct (stack_full bytes s); [discriminate|].
+  destruct e.
+  - intros H; inversion H; subst; auto.
+  - cbv zeta. destruct (stack_full (bytes + tail_extra ba bytes s) s) eqn:E2; [discriminate|].
+    intros H; inversion H; subst. split; [reflexivity|].
+    split; [apply tail_extra_bounds|]. split; [reflexivity|].
+    split; [unfold tail_extra; apply tail_offset_aligned|]. split; reflexivity.
 Qed.
 
-Lemma do_req_inv : forall lwork r u, req_ok r -> ust_inv lwork u -> ust_inv lwork (do_req r u).
+Lemma user_malloc_tail_aligned : forall ba bytes s off s',
+  user_malloc ba bytes TAIL s = (Some off, s') -> misalign ba off = 0.
+Proof. intros ba bytes s off s' H. apply user_malloc_granted in H. cbv zeta in H. tauto. Qed.
+
+(* a refusal: not even `bytes` fits (HEAD, TAIL), or the aligned TAIL block does not fit *)
+Lemma user_malloc_refused : forall ba bytes e s s',
+  user_malloc ba bytes e s = (None, s') ->
+  s' = s /\ (stack_full bytes s = true \/ (e = TAIL /\ stack_full (bytes + tail_extra ba bytes s) s = true)).
 Proof.
-  intros lwork r u Hr (Hs & Hh & Ht).
+  intros ba bytes e s s'. unfold user_malloc. destruct (stack_full bytes s).
+  - intros H; inversion H; auto.
+  - destruct e; [discriminate|]. cbv zeta.
+    destruct (stack_full (bytes + tail_extra ba bytes s) s); [|discriminate].
+    intros H; inversion H; auto.
+Qed.
+
+Lemma tail_chain_lower : forall l size top top', tail_chain size top l -> top' <= top -> tail_chain size top' l.
+Proof. destruct l as [|[off b] t]; simpl; intros size top top' H Hle; [lia|]. destruct H as (? & ? & ?). repeat split; auto; lia. Qed.
+
+Lemma tail_chain_top : forall l size top, tail_chain size top l -> top <= size.
+Proof.
+  induction l as [|[off b] t IH]; simpl; intros size top H; [lia|].
+  destruct H as (Hb & Hob & Hc). specialize (IH _ _ Hc). lia.
+Qed.
+
+Lemma do_req_inv : forall ba lwork r u, req_ok r -> ust_inv lwork u -> ust_inv lwork (do_req ba r u).
+Proof.
+  intros ba lwork r u Hr (Hs & Hh & Ht).
   destruct Hs as (Hsz & H1 & H12 & H2 & Hu).
   destruct r as [bytes e | e | | ]; simpl in *.
-  - destruct (user_malloc bytes e (u_stack u)) as [[off|] s'] eqn:E.
+  - destruct (user_malloc ba bytes e (u_stack u)) as [[off|] s'] eqn:E.
     + apply user_malloc_granted in E. destruct E as [Hf E]. unfold stack_full in Hf.
       apply Z.leb_gt in Hf.
-      destruct e; destruct E as [-> ->]; unfold ust_inv, stack_inv; simpl; repeat split; try lia; auto.
-      replace (s_top2 (u_stack u) - bytes + bytes) with (s_top2 (u_stack u)) by lia. assumption.
+      destruct e.
+      * destruct E as [-> ->]. unfold ust_inv, stack_inv; simpl; repeat split; try lia; auto.
+      * cbv zeta in E. destruct E as (Hex & Hf2 & _ & -> & ->). unfold stack_full in Hf2. apply Z.leb_gt in Hf2.
+        set (extra := tail_extra ba bytes (u_stack u)) in *.
+        unfold ust_inv, stack_inv; simpl; repeat split; try lia; auto.
+        eapply tail_chain_lower; [exact Ht|lia].
     + unfold ust_inv, stack_inv; auto 10.
   - destruct e.
     + destruct (u_head u) as [|[off b] t] eqn:E; [unfold ust_inv, stack_inv; rewrite E; auto 10|].
@@ -154,11 +209,9 @@ Proof.
       replace (s_top1 (u_stack u) - b) with off by lia. assumption.
     + destruct (u_tail u) as [|[off b] t] eqn:E; [unfold ust_inv, stack_inv; rewrite E; auto 10|].
       simpl in Ht. destruct Ht as (Hb & Hob & Hc).
-      assert (off + b <= lwork).
-      { clear - Hc. revert off b Hc. induction t as [|[o b'] t IH]; simpl; intros; [lia|].
-        destruct Hc as (? & ? & Hc). specialize (IH _ _ Hc). lia. }
+      pose proof (tail_chain_top _ _ _ Hc) as Htop.
       unfold ust_inv, stack_inv; simpl; repeat split; try lia; auto.
-      replace (s_top2 (u_stack u) + b) with (off + b) by lia. assumption.
+      eapply tail_chain_lower; [exact Hc|lia].
   - unfold ust_inv, stack_inv; auto 10.
   - unfold ust_inv, stack_inv, tail_reclaim_stack; simpl; repeat split; try lia; auto.
 Qed.
@@ -166,9 +219,9 @@ Qed.
 Lemma init_ust_inv : forall lwork, 0 < lwork -> ust_inv lwork (init_ust lwork).
 Proof. intros. unfold ust_inv, stack_inv, init_ust, setup_stack; simpl. repeat split; lia. Qed.
 
-Lemma run_reqs_inv : forall lwork rs u, Forall req_ok rs -> ust_inv lwork u -> ust_inv lwork (run_reqs rs u).
+Lemma run_reqs_inv : forall ba lwork rs u, Forall req_ok rs -> ust_inv lwork u -> ust_inv lwork (run_reqs ba rs u).
 Proof.
-  intros lwork rs. induction rs as [|r rs IH]; intros u Hok Hinv; simpl; [assumption|].
+  intros ba lwork rs. induction rs as [|r rs IH]; intros u Hok Hinv; simpl; [assumption|].
   inversion Hok; subst. apply IH; [assumption|]. apply do_req_inv; assumption.
 Qed.
 
@@ -219,16 +272,37 @@ Proof.
   - apply IH. intros; apply H12; [right|]; assumption.
 Qed.
 
-Lemma ustack_safe_lemma : forall lwork rs, 0 < lwork -> Forall req_ok rs ->
-  let u := run_reqs rs (init_ust lwork) in
+(* every live TAIL block starts on an 8-byte boundary *)
+Definition tail_aligned (ba : Z) (u : ust) : Prop := Forall (fun b => misalign ba (fst b) = 0) (u_tail u).
+
+Lemma do_req_tail_aligned : forall ba r u, tail_aligned ba u -> tail_aligned ba (do_req ba r u).
+Proof.
+  intros ba r u H. unfold tail_aligned in *. destruct r as [bytes e | e | | ]; simpl.
+  - destruct (user_malloc ba bytes e (u_stack u)) as [[off|] s'] eqn:E; [|assumption].
+    destruct e; simpl; [assumption|]. constructor; [|assumption]. simpl. eapply user_malloc_tail_aligned; eassumption.
+  - destruct e.
+    + destruct (u_head u) as [|[off b] t]; simpl; assumption.
+    + destruct (u_tail u) as [|[off b] t] eqn:E; simpl; [rewrite E; constructor|]. inversion H; assumption.
+  - assumption.
+  - constructor.
+Qed.
+
+Lemma run_reqs_tail_aligned : forall ba rs u, tail_aligned ba u -> tail_aligned ba (run_reqs ba rs u).
+Proof.
+  intros ba rs. induction rs as [|r rs IH]; intros u H; simpl; [assumption|].
+  apply IH. apply do_req_tail_aligned. assumption.
+Qed.
+
+Lemma ustack_safe_lemma : forall ba lwork rs, 0 < lwork -> Forall req_ok rs ->
+  let u := run_reqs ba rs (init_ust lwork) in
   let s := u_stack u in
   Forall (block_in 0 lwork) (u_head u ++ u_tail u) /\
   ForallOrdPairs disjoint (u_head u ++ u_tail u) /\
   s_used s = s_top1 s + (s_size s - s_top2 s) /\
   0 <= s_top1 s <= s_top2 s /\ s_top2 s <= lwork /\ s_size s = lwork.
 Proof.
-  intros lwork rs Hl Hok u s.
-  pose proof (run_reqs_inv lwork rs _ Hok (init_ust_inv lwork Hl)) as (Hs & Hh & Ht).
+  intros ba lwork rs Hl Hok u s.
+  pose proof (run_reqs_inv ba lwork rs _ Hok (init_ust_inv lwork Hl)) as (Hs & Hh & Ht).
   fold u in Hs, Hh, Ht. fold s in Hs, Hh, Ht.
   destruct Hs as (Hsz & H1 & H12 & H2 & Hu).
   destruct (head_chain_range _ _ Hh) as [_ HFh].
@@ -242,12 +316,19 @@ Proof.
       specialize (HFh _ Ha). specialize (HFt _ Hb). unfold block_in, disjoint in *. lia.
 Qed.
 
-(* non-vacuity: a disciplined sequence that really allocates on both ends, is refused once and frees *)
+(* ... and every live TAIL block is on an 8-byte boundary *)
+Lemma ustack_tail_aligned_lemma : forall ba lwork rs,
+  Forall (fun b => misalign ba (fst b) = 0) (u_tail (run_reqs ba rs (init_ust lwork))).
+Proof. intros. apply run_reqs_tail_aligned. constructor. Qed.
+
+(* non-vacuity: a disciplined sequence that really allocates on both ends, is refused once and frees; the buffer
+   starts at an address = 4 mod 8, so the TAIL request of 200 bytes takes 204 (offset 796: address = 0 mod 8) *)
 Example ustack_safe_nonvacuous :
-  let u := run_reqs [RMalloc 100 HEAD; RMalloc 200 TAIL; RMalloc 700 HEAD; RMalloc 699 HEAD; RFreeLast HEAD; RReclaim]
-                    (init_ust 1000) in
-  u_head u = [(0, 100)] /\ u_tail u = [] /\ u_stack u = mkStack 1000 100 100 1000.
-Proof. vm_compute. auto. Qed.
+  let u := run_reqs 4 [RMalloc 100 HEAD; RMalloc 200 TAIL; RMalloc 700 HEAD; RMalloc 695 HEAD] (init_ust 1000) in
+  u_head u = [(100, 695); (0, 100)] /\ u_tail u = [(796, 200)] /\ u_stack u = mkStack 1000 999 795 796 /\
+  let u' := run_reqs 4 [RFreeLast HEAD; RReclaim] u in
+  u_head u' = [(0, 100)] /\ u_tail u' = [] /\ u_stack u' = mkStack 1000 100 100 1000.
+Proof. vm_compute. auto 10. Qed.
 
 (* ================================================================== *)
 (* 3. p?gstrf_MemInit *)
@@ -974,28 +1055,62 @@ Proof.
   eexists. split; [vm_compute; reflexivity|]. split; vm_compute; reflexivity.
 Qed.
 
-(* (b) WorkInit moves a misaligned dwork DOWN without testing the room: with sp_ienv(8) = -2 and lwork = 477
-   the first 4 bytes of dwork are the last int of usub *)
-Lemma workinit_alignment_overlap_lemma :
-  exists a g m1 iw dw m2,
+(* (b) [repaired: fix 'tail blocks are aligned by the allocator']  WorkInit used to move a misaligned dwork DOWN without
+   testing the room: with sp_ienv(8) = -2 and lwork = 477 the first 4 bytes of dwork were the last int of usub and top2 ended
+   below top1 (the refuted statement workinit_alignment_overlap of earlier versions).  Now the allocator aligns the block
+   itself and tests the enlarged request: for these very arguments iwork takes 125 bytes (offset 352), dwork (72 bytes) is
+   REFUSED and WorkInit returns isize + dsize + n; with 8 more bytes (lwork = 485, buffer end still misaligned) both arrays
+   are granted, dwork on an 8-byte boundary, everything inside the buffer, disjoint from the 13 arrays of Glu, top1 <= top2.
+   Both are instances of work_init_user_safe_lemma (section 8). *)
+Lemma workinit_alignment_in_range_lemma :
+  (exists a g m1 iw m2,
+    a = mkArgs 3 5 1 1 false false 7 0 0 477 0 None /\
+    mem_init (fun _ => false) small_cfg 64 a init_mem = Ok (MIok g) m1 /\
+    work_init (fun _ => false) small_cfg (a_n a) (a_w a) m1
+      = Ok (work_isize (a_n a) (a_w a) + work_dsize small_cfg (a_n a) (a_w a) + a_n a, POff iw, PNull) m2 /\
+    exists bl, glu_blocks small_cfg (a_n a) g = Some bl /\ blocks_okb (a_lwork a) bl = true /\
+    blocks_okb (a_lwork a) (bl ++ [(iw, work_isize (a_n a) (a_w a))]) = true /\
+    s_top1 (m_stack m2) <= s_top2 (m_stack m2) /\ s_top1 (m_stack m2) = s_top1 (m_stack m1)) /\
+  (exists a g m1 iw dw m2,
+    a = mkArgs 3 5 1 1 false false 7 0 0 485 0 None /\
     mem_init (fun _ => false) small_cfg 64 a init_mem = Ok (MIok g) m1 /\
     work_init (fun _ => false) small_cfg (a_n a) (a_w a) m1 = Ok (0, POff iw, POff dw) m2 /\
+    misalign (a_ba a) dw = 0 /\
     exists bl, glu_blocks small_cfg (a_n a) g = Some bl /\ blocks_okb (a_lwork a) bl = true /\
-    blocks_okb (a_lwork a) (bl ++ [(iw, work_isize (a_n a) (a_w a)); (dw, work_dsize small_cfg (a_n a) (a_w a))]) = false /\
-    s_top2 (m_stack m2) < s_top1 (m_stack m2).
+    blocks_okb (a_lwork a) (bl ++ [(iw, work_isize (a_n a) (a_w a)); (dw, work_dsize small_cfg (a_n a) (a_w a))]) = true /\
+    s_top1 (m_stack m2) <= s_top2 (m_stack m2) /\ s_top1 (m_stack m2) = s_top1 (m_stack m1) /\
+    forall o b e, ~ In (EvShift o b e) (m_log m2)).
 Proof.
-  exists (mkArgs 3 5 1 1 false false 7 0 0 477 0 None).
-  eexists. eexists. eexists. eexists. eexists.
-  split; [vm_compute; reflexivity|]. split; [vm_compute; reflexivity|].
-  eexists. split; [vm_compute; reflexivity|]. repeat split; vm_compute; reflexivity.
+  split.
+  - eexists. eexists. eexists. eexists. eexists. split; [reflexivity|].
+    split; [vm_compute; reflexivity|]. split; [vm_compute; reflexivity|].
+    eexists. split; [vm_compute; reflexivity|]. repeat split; vm_compute; (reflexivity || discriminate).
+  - eexists. eexists. eexists. eexists. eexists. eexists. split; [reflexivity|].
+    split; [vm_compute; reflexivity|]. split; [vm_compute; reflexivity|]. split; [vm_compute; reflexivity|].
+    eexists. split; [vm_compute; reflexivity|].
+    split; [vm_compute; reflexivity|]. split; [vm_compute; reflexivity|].
+    split; [vm_compute; discriminate|]. split; [vm_compute; reflexivity|].
+    intros o b e H. vm_compute in H.
+    repeat (destruct H as [H|H]; [discriminate|]). exact H.
 Qed.
 
-(* (c) two threads, buffer end not 8-aligned: the fix-up of thread 0 runs after thread 1 took its iwork *)
-Lemma workinit_race_overlap_lemma :
+(* (c) [repaired]  two threads, buffer end not 8-aligned: the fix-up of thread 0 used to run after thread 1 had taken its
+   iwork, and the two overlapped (the refuted statement workinit_race_overlap of earlier versions).  For the very schedule
+   of that witness no thread passes through the fix-up state any more and the blocks are pairwise disjoint and inside
+   [top1, lwork); the fourth step of the schedule is now thread 0's WorkFree (run_sched), or nothing at all in the
+   start-up phase (run_init), where both threads end up ready with disjoint aligned blocks.
+   Instances of workfree_threads_lemma / workinit_threads_lemma (section 7), which hold for EVERY schedule. *)
+Lemma workinit_race_no_overlap_lemma :
   exists lwork sched,
-    let '(ts, s) := run_sched small_cfg 3 1 0 sched [TStart; TStart] (mkStack lwork 264 264 lwork) in
-    ts = [TReady 9884 9808; TReady 9692 9616] /\ pairwise_disjointb (live_blocks small_cfg 3 1 ts) = false.
-Proof. exists 10004, [0; 0; 1; 0; 1]%nat. vm_compute. auto. Qed.
+    (let '(ts, s) := run_sched small_cfg 3 1 0 sched [TStart; TStart] (mkStack lwork 264 264 lwork) in
+     ts = [TDone; TReady 9688 9616] /\ blocks_okb lwork (live_blocks small_cfg 3 1 ts) = true /\
+     s_top1 s = 264 /\ s_top1 s <= s_top2 s) /\
+    (let '(ts, s) := run_init small_cfg 3 1 0 sched [TStart; TStart] (mkStack lwork 264 264 lwork) in
+     ts = [TReady 9880 9808; TReady 9688 9616] /\ blocks_okb lwork (live_blocks small_cfg 3 1 ts) = true /\
+     forallb (in_rangeb 264 lwork) (live_blocks small_cfg 3 1 ts) = true /\
+     forallb (fun b => misalign 0 (fst b) =? 0) (live_blocks small_cfg 3 1 ts) = true /\
+     s = mkStack lwork 652 264 9616).
+Proof. exists 10004, [0; 0; 1; 0; 1]%nat. vm_compute. split; [split; [reflexivity|split; [reflexivity|split; [reflexivity|discriminate]]]|auto 10]. Qed.
 
 (* (d) three threads, thread 1 finishes first and calls WorkFree while thread 0 still works and thread 2 starts late: since
    fix 'WorkFree keeps the tail' nothing is released, thread 2 gets fresh blocks (this very schedule used to hand thread 0's
@@ -1028,14 +1143,13 @@ Proof.
 Qed.
 
 (* ================================================================== *)
-(* 7. P threads starting up on the user stack, ANY interleaving of their locked sections, when no alignment
-      fix-up can occur (buffer end 8-aligned, element size a multiple of 8 bytes): the blocks of different threads
-      never overlap and stay between the HEAD part and the end of the buffer *)
+(* 7. P threads starting up on the user stack, ANY interleaving of their locked sections, ANY alignment of the buffer
+      and ANY element size (since fix 'tail blocks are aligned by the allocator' every TAIL block is put on an 8-byte
+      boundary inside the allocator's own critical section, so the fix-up state TGotD of p?gstrf_WorkInit is never entered):
+      the blocks of different threads never overlap and stay between the HEAD part and the end of the buffer *)
 Section Threads.
 Variable c : cfg.
 Variables n w ba L T1 : Z.
-Hypothesis Hend : (ba + L) mod 8 = 0.
-Hypothesis Hd8 : work_dsize c n w mod 8 = 0.
 Hypothesis Hi0 : 0 <= work_isize n w.
 Hypothesis Hd0 : 0 <= work_dsize c n w.
 Hypothesis HT : 0 <= T1 <= L.
@@ -1055,12 +1169,12 @@ Proof.
     try (apply IH; congruence).
 Qed.
 
-(* the invariant *)
+(* the invariant (no alignment clause any more: nothing is assumed about ba + top2) *)
 Definition tinv (ts : list tstate) (s : stack) : Prop :=
   s_size s = L /\ s_top1 s = T1 /\ T1 <= s_top2 s <= L /\ s_used s = s_top1 s + (s_size s - s_top2 s) /\
-  (ba + s_top2 s) mod 8 = 0 /\
   (forall i t, nth_error ts i = Some t -> (forall iw dw e, t <> TGotD iw dw e) /\
                                           Forall (block_in (s_top2 s) L) (thread_blocks c n w t) /\
+                                          Forall (fun b => misalign ba (fst b) = 0) (thread_blocks c n w t) /\
                                           (forall iw dw, t = TReady iw dw -> disjoint (iw, work_isize n w) (dw, work_dsize c n w))) /\
   (forall i j ti tj bi bj, i <> j -> nth_error ts i = Some ti -> nth_error ts j = Some tj ->
                            In bi (thread_blocks c n w ti) -> In bj (thread_blocks c n w tj) -> disjoint bi bj).
@@ -1076,41 +1190,44 @@ Proof. unfold block_in; intros; lia. Qed.
 Lemma init_step_inv : forall ts s i t t' s',
   tinv ts s -> nth_error ts i = Some t -> init_step c n w ba t s = (t', s') -> tinv (upd ts i t') s'.
 Proof.
-  intros ts s i t t' s' (Hsz & Ht1 & Ht2 & Hu & Hal & Hper & Hdis) Hi Hstep.
-  destruct (Hper i t Hi) as (HnoD & Hblk & Hrd).
-  pose proof work_isize_mod8 as Hi8.
+  intros ts s i t t' s' (Hsz & Ht1 & Ht2 & Hu & Hper & Hdis) Hi Hstep.
+  destruct (Hper i t Hi) as (HnoD & Hblk & Halg & Hrd).
   (* a generic way to re-establish the invariant when thread i gets a new block list bl' inside [top2', L)
      whose elements are below the old top2 *)
   assert (Hgen : forall top2' used' bl',
-            s' = mkStack L used' T1 top2' -> T1 <= top2' <= s_top2 s -> used' = T1 + (L - top2') -> (ba + top2') mod 8 = 0 ->
+            s' = mkStack L used' T1 top2' -> T1 <= top2' <= s_top2 s -> used' = T1 + (L - top2') ->
             thread_blocks c n w t' = bl' ->
             (forall iw dw e, t' <> TGotD iw dw e) ->
-            (forall b, In b bl' -> In b (thread_blocks c n w t) \/ (top2' <= fst b /\ fst b + snd b <= s_top2 s)) ->
+            (forall b, In b bl' -> In b (thread_blocks c n w t) \/
+                                   (top2' <= fst b /\ fst b + snd b <= s_top2 s /\ misalign ba (fst b) = 0)) ->
             (forall iw dw, t' = TReady iw dw -> disjoint (iw, work_isize n w) (dw, work_dsize c n w)) ->
             tinv (upd ts i t') s').
-  { intros top2' used' bl' -> Hr Hus Hal' Hbl Hnd Hnew Hrd'.
+  { intros top2' used' bl' -> Hr Hus Hbl Hnd Hnew Hrd'.
     unfold tinv; simpl.
-    split; [reflexivity|]. split; [reflexivity|]. split; [lia|]. split; [lia|]. split; [assumption|]. split.
+    split; [reflexivity|]. split; [reflexivity|]. split; [lia|]. split; [lia|]. split.
     - intros j tj Hj. destruct (Nat.eq_dec i j) as [<-|Hne].
       + rewrite (nth_error_upd_same _ ts i t' t Hi) in Hj. inversion Hj; subst tj.
-        split; [assumption|]. split; [|assumption].
-        rewrite Hbl. apply Forall_forall. intros b Hb. destruct (Hnew b Hb) as [Hold|[Hlo Hhi]].
-        * rewrite Forall_forall in Hblk. apply (block_in_weaken (s_top2 s)); [lia|]. apply Hblk; assumption.
-        * unfold block_in. lia.
+        split; [assumption|]. split; [|split; [|assumption]].
+        * rewrite Hbl. apply Forall_forall. intros b Hb. destruct (Hnew b Hb) as [Hold|(Hlo & Hhi & _)].
+          -- rewrite Forall_forall in Hblk. apply (block_in_weaken (s_top2 s)); [lia|]. apply Hblk; assumption.
+          -- unfold block_in. lia.
+        * rewrite Hbl. apply Forall_forall. intros b Hb. destruct (Hnew b Hb) as [Hold|(_ & _ & Hal')].
+          -- rewrite Forall_forall in Halg. apply Halg; assumption.
+          -- exact Hal'.
       + rewrite nth_error_upd_other in Hj by assumption.
-        destruct (Hper j tj Hj) as (Hn1 & Hb1 & Hr1). split; [assumption|]. split; [|assumption].
+        destruct (Hper j tj Hj) as (Hn1 & Hb1 & Ha1 & Hr1). split; [assumption|]. split; [|split; assumption].
         eapply Forall_impl; [|exact Hb1]. intros b. apply block_in_weaken. lia.
     - intros j k tj tk bj bk Hjk Hj Hk Hbj Hbk.
       destruct (Nat.eq_dec i j) as [<-|Hnj]; destruct (Nat.eq_dec i k) as [<-|Hnk]; try congruence.
       + rewrite (nth_error_upd_same _ ts i t' t Hi) in Hj. inversion Hj; subst tj.
         rewrite nth_error_upd_other in Hk by assumption. rewrite Hbl in Hbj.
-        destruct (Hnew bj Hbj) as [Hold|[Hlo Hhi]].
+        destruct (Hnew bj Hbj) as [Hold|(Hlo & Hhi & _)].
         * eapply (Hdis i k); eassumption.
         * destruct (Hper k tk Hk) as (_ & Hbk' & _). rewrite Forall_forall in Hbk'. specialize (Hbk' _ Hbk).
           unfold block_in, disjoint in *. lia.
       + rewrite (nth_error_upd_same _ ts i t' t Hi) in Hk. inversion Hk; subst tk.
         rewrite nth_error_upd_other in Hj by assumption. rewrite Hbl in Hbk.
-        destruct (Hnew bk Hbk) as [Hold|[Hlo Hhi]].
+        destruct (Hnew bk Hbk) as [Hold|(Hlo & Hhi & _)].
         * eapply (Hdis j i); eassumption || congruence.
         * destruct (Hper j tj Hj) as (_ & Hbj' & _). rewrite Forall_forall in Hbj'. specialize (Hbj' _ Hbj).
           unfold block_in, disjoint in *. lia.
@@ -1119,38 +1236,40 @@ Proof.
   assert (Hsame : t' = t -> s' = s -> tinv (upd ts i t') s').
   { intros -> ->. destruct s as [sz us t1 t2]; simpl in *. subst sz t1.
     apply (Hgen t2 us (thread_blocks c n w t)); auto; try lia. }
+  (* a refusal: the thread fails, the stack is unchanged *)
+  assert (Hfail : forall code, t' = TFailed code -> s' = s -> tinv (upd ts i t') s').
+  { intros code -> ->. destruct s as [sz us t1 t2]; simpl in *. subst sz t1.
+    apply (Hgen t2 us []); auto; try lia; try discriminate; try (intros b []). }
   destruct t as [|iw|iw dw e|iw dw|code|]; simpl in Hstep.
   - (* TStart *)
-    unfold user_malloc, stack_full in Hstep.
-    destruct (s_size s <=? work_isize n w + s_used s) eqn:E.
-    + inversion Hstep; subst t' s'. 
-      destruct s as [sz us t1 t2]; simpl in *. subst sz t1.
-      apply (Hgen t2 us []); auto; try lia; try discriminate; try (intros b []).
-    + apply Z.leb_gt in E. inversion Hstep; subst t' s'.
-      apply (Hgen (s_top2 s - work_isize n w) (s_used s + work_isize n w) [(s_top2 s - work_isize n w, work_isize n w)]);
+    destruct (user_malloc ba (work_isize n w) TAIL s) as [[off|] s1] eqn:E.
+    + inversion Hstep; subst t' s'. clear Hstep.
+      apply user_malloc_granted in E. cbv zeta in E. destruct E as (_ & Hex & Hf2 & Hal & -> & ->).
+      unfold stack_full in Hf2. apply Z.leb_gt in Hf2.
+      set (extra := tail_extra ba (work_isize n w) s) in *.
+      apply (Hgen (s_top2 s - (work_isize n w + extra)) (s_used s + (work_isize n w + extra))
+                  [(s_top2 s - (work_isize n w + extra), work_isize n w)]);
         try (rewrite Hsz, Ht1; reflexivity); try lia; try discriminate.
-      * replace (ba + (s_top2 s - work_isize n w)) with ((ba + s_top2 s) - work_isize n w) by lia. apply mod8_sub; assumption.
       * reflexivity.
-      * intros b [<-|[]]. right. simpl. lia.
+      * intros b [<-|[]]. right. simpl. split; [lia|]. split; [lia|exact Hal].
+    + apply user_malloc_refused in E. destruct E as [-> _]. inversion Hstep; subst t' s'.
+      eapply Hfail; reflexivity.
   - (* TGotI *)
-    unfold user_malloc, stack_full in Hstep.
-    destruct (s_size s <=? work_dsize c n w + s_used s) eqn:E.
-    + inversion Hstep; subst t' s'.
-      destruct s as [sz us t1 t2]; simpl in *. subst sz t1.
-      apply (Hgen t2 us []); auto; try lia; try discriminate; try (intros b []).
-    + apply Z.leb_gt in E.
-      assert (Hal2 : misalign ba (s_top2 s - work_dsize c n w) = 0).
-      { unfold misalign. replace (ba + (s_top2 s - work_dsize c n w)) with ((ba + s_top2 s) - work_dsize c n w) by lia.
-        apply mod8_sub; assumption. }
-      rewrite Hal2 in Hstep. simpl in Hstep. inversion Hstep; subst t' s'.
+    destruct (user_malloc ba (work_dsize c n w) TAIL s) as [[off|] s1] eqn:E.
+    + pose proof (user_malloc_tail_aligned _ _ _ _ _ E) as Hal.
+      rewrite Hal in Hstep. simpl in Hstep. inversion Hstep; subst t' s'. clear Hstep.
+      apply user_malloc_granted in E. cbv zeta in E. destruct E as (_ & Hex & Hf2 & _ & -> & ->).
+      unfold stack_full in Hf2. apply Z.leb_gt in Hf2.
+      set (extra := tail_extra ba (work_dsize c n w) s) in *.
       simpl in Hblk. inversion Hblk as [|? ? Hb1 _]; subst. unfold block_in in Hb1; simpl in Hb1.
-      apply (Hgen (s_top2 s - work_dsize c n w) (s_used s + work_dsize c n w)
-                  [(iw, work_isize n w); (s_top2 s - work_dsize c n w, work_dsize c n w)]);
+      apply (Hgen (s_top2 s - (work_dsize c n w + extra)) (s_used s + (work_dsize c n w + extra))
+                  [(iw, work_isize n w); (s_top2 s - (work_dsize c n w + extra), work_dsize c n w)]);
         try (rewrite Hsz, Ht1; reflexivity); try lia; try discriminate.
-      * exact Hal2.
       * reflexivity.
-      * intros b [<-|[<-|[]]]; [left; simpl; auto|right; simpl; lia].
+      * intros b [<-|[<-|[]]]; [left; simpl; auto|right; simpl; split; [lia|split; [lia|exact Hal]]].
       * intros iw' dw' Heq. inversion Heq; subst. unfold disjoint; simpl. lia.
+    + apply user_malloc_refused in E. destruct E as [-> _]. inversion Hstep; subst t' s'.
+      eapply Hfail; reflexivity.
   - exfalso. eapply HnoD. reflexivity.
   - inversion Hstep; subst. apply Hsame; reflexivity.
   - inversion Hstep; subst. apply Hsame; reflexivity.
@@ -1167,11 +1286,37 @@ Qed.
 
 Lemma tinv_start : forall P, tinv (repeat TStart P) (mkStack L T1 T1 L).
 Proof.
-  intros P. unfold tinv; simpl. repeat split; try lia; try assumption.
-  - intros iw dw e Heq. apply nth_error_In in H. apply repeat_spec in H. congruence.
-  - apply nth_error_In in H. apply repeat_spec in H. subst t. simpl. constructor.
-  - intros iw dw Heq. apply nth_error_In in H. apply repeat_spec in H. congruence.
+  intros P. unfold tinv; simpl.
+  split; [reflexivity|]. split; [reflexivity|]. split; [lia|]. split; [lia|]. split.
+  - intros i t H. apply nth_error_In in H. apply repeat_spec in H. subst t. simpl.
+    split; [intros; discriminate|]. split; [constructor|]. split; [constructor|intros; discriminate].
   - intros i j ti tj bi bj _ Hi _ Hbi _. apply nth_error_In in Hi. apply repeat_spec in Hi. subst ti. destruct Hbi.
+Qed.
+
+(* what the invariant gives about the threads' blocks *)
+Lemma tinv_conclusion : forall ts s, tinv ts s ->
+  (forall i t b, nth_error ts i = Some t -> In b (thread_blocks c n w t) -> block_in T1 L b) /\
+  (forall i j ti tj bi bj, i <> j -> nth_error ts i = Some ti -> nth_error ts j = Some tj ->
+        In bi (thread_blocks c n w ti) -> In bj (thread_blocks c n w tj) -> disjoint bi bj) /\
+  (forall i iw dw, nth_error ts i = Some (TReady iw dw) -> disjoint (iw, work_isize n w) (dw, work_dsize c n w)) /\
+  s_used s = s_top1 s + (s_size s - s_top2 s) /\ s_top1 s = T1 /\ T1 <= s_top2 s <= L.
+Proof.
+  intros ts s (Hsz & Ht1 & Ht2 & Hu & Hper & Hdis).
+  split; [|split; [exact Hdis|split; [|split; [exact Hu|split; [exact Ht1|exact Ht2]]]]].
+  - intros i t b Hi Hb. destruct (Hper i t Hi) as (_ & Hbl & _). rewrite Forall_forall in Hbl. specialize (Hbl _ Hb).
+    unfold block_in in *. lia.
+  - intros i iw dw Hi. destruct (Hper i _ Hi) as (_ & _ & _ & Hr). apply Hr. reflexivity.
+Qed.
+
+(* the alignment fix-up of p?gstrf_WorkInit is dead: no thread is ever in the state between user_malloc(dwork) and the
+   second locked section, and every block handed out starts on an 8-byte boundary *)
+Lemma tinv_no_fixup : forall ts s, tinv ts s ->
+  (forall i iw dw e, nth_error ts i <> Some (TGotD iw dw e)) /\
+  (forall i t b, nth_error ts i = Some t -> In b (thread_blocks c n w t) -> misalign ba (fst b) = 0).
+Proof.
+  intros ts s (_ & _ & _ & _ & Hper & _). split.
+  - intros i iw dw e Hi. destruct (Hper i _ Hi) as (HnoD & _). eapply HnoD. reflexivity.
+  - intros i t b Hi Hb. destruct (Hper i t Hi) as (_ & _ & Hal & _). rewrite Forall_forall in Hal. apply Hal. exact Hb.
 Qed.
 
 Lemma workinit_threads_lemma : forall P sched,
@@ -1185,21 +1330,17 @@ Proof.
   intros P sched.
   pose proof (run_init_inv sched _ _ (tinv_start P)) as H.
   destruct (run_init c n w ba sched (repeat TStart P) (mkStack L T1 T1 L)) as [ts s].
-  destruct H as (Hsz & Ht1 & Ht2 & Hu & Hal & Hper & Hdis).
-  repeat split; try lia; try assumption.
-  - destruct (Hper i t H) as (_ & Hb & _). rewrite Forall_forall in Hb. specialize (Hb _ H0). unfold block_in in *. lia.
-  - destruct (Hper i t H) as (_ & Hb & _). rewrite Forall_forall in Hb. specialize (Hb _ H0). unfold block_in in *. lia.
-  - intros i iw dw Hi. destruct (Hper i _ Hi) as (_ & _ & Hr). apply Hr. reflexivity.
+  apply tinv_conclusion. exact H.
 Qed.
 
 (* the WHOLE run, WorkFree included: a thread that finishes keeps the stack as it is (its blocks are simply no longer used) *)
 Lemma tinv_done : forall ts s i t, tinv ts s -> nth_error ts i = Some t -> tinv (upd ts i TDone) s.
 Proof.
-  intros ts s i t (Hsz & Ht1 & Ht2 & Hu & Hal & Hper & Hdis) Hi.
+  intros ts s i t (Hsz & Ht1 & Ht2 & Hu & Hper & Hdis) Hi.
   unfold tinv. repeat (split; [assumption|]). split.
   - intros j tj Hj. destruct (Nat.eq_dec i j) as [<-|Hne].
     + rewrite (nth_error_upd_same _ ts i TDone t Hi) in Hj. inversion Hj; subst tj.
-      split; [intros; discriminate|]. split; [constructor|intros; discriminate].
+      split; [intros; discriminate|]. split; [constructor|]. split; [constructor|intros; discriminate].
     + rewrite nth_error_upd_other in Hj by assumption. exact (Hper j tj Hj).
   - intros j k tj tk bj bk Hjk Hj Hk Hbj Hbk.
     destruct (Nat.eq_dec i j) as [<-|Hnj].
@@ -1238,13 +1379,20 @@ Proof.
   intros P sched.
   pose proof (run_sched_inv sched _ _ (tinv_start P)) as H.
   destruct (run_sched c n w ba sched (repeat TStart P) (mkStack L T1 T1 L)) as [ts s].
-  destruct H as (Hsz & Ht1 & Ht2 & Hu & Hal & Hper & Hdis).
-  repeat split; try lia; try assumption.
-  - destruct (Hper i t H) as (_ & Hb & _). rewrite Forall_forall in Hb. specialize (Hb _ H0). unfold block_in in *. lia.
-  - destruct (Hper i t H) as (_ & Hb & _). rewrite Forall_forall in Hb. specialize (Hb _ H0). unfold block_in in *. lia.
-  - intros i iw dw Hi. destruct (Hper i _ Hi) as (_ & _ & Hr). apply Hr. reflexivity.
+  apply tinv_conclusion. exact H.
 Qed.
 
+(* EVERY interleaving over the whole run: the fix-up state is never entered, all blocks are on 8-byte boundaries *)
+Lemma workinit_no_fixup_lemma : forall P sched,
+  let '(ts, s) := run_sched c n w ba sched (repeat TStart P) (mkStack L T1 T1 L) in
+  (forall i iw dw e, nth_error ts i <> Some (TGotD iw dw e)) /\
+  (forall i t b, nth_error ts i = Some t -> In b (thread_blocks c n w t) -> misalign ba (fst b) = 0).
+Proof.
+  intros P sched.
+  pose proof (run_sched_inv sched _ _ (tinv_start P)) as H.
+  destruct (run_sched c n w ba sched (repeat TStart P) (mkStack L T1 T1 L)) as [ts s].
+  apply tinv_no_fixup with (s := s). exact H.
+Qed.
 
 End Threads.
 
@@ -1252,6 +1400,13 @@ End Threads.
 Example workinit_threads_example :
   run_init small_cfg 3 1 0 [0; 1; 2; 1; 0; 2; 2]%nat [TStart; TStart; TStart] (mkStack 10000 264 264 10000)
   = ([TReady 9880 9496; TReady 9760 9568; TReady 9640 9424], mkStack 10000 840 264 9424).
+Proof. vm_compute. reflexivity. Qed.
+
+(* ... and a buffer that neither starts (ba = 3) nor ends (3 + 10002 = 5 mod 8) on an 8-byte boundary, single precision
+   (dword = 4: dsize = 36, not a multiple of 8): every block lands on an address = 0 mod 8 *)
+Example workinit_threads_misaligned_example :
+  run_init (mkCfg 4 2 2 (-1) (-1) (-2)) 3 1 3 [0; 1; 2; 1; 0; 2; 2]%nat [TStart; TStart; TStart] (mkStack 10002 264 264 10002)
+  = ([TReady 9877 9557; TReady 9757 9597; TReady 9637 9517], mkStack 10002 749 264 9517).
 Proof. vm_compute. reflexivity. Qed.
 
 (* ================================================================== *)
@@ -1279,18 +1434,72 @@ Lemma thread_steps_refine_work_init : forall fail c n w m,
 Proof.
   intros fail c n w m Hsp. unfold work_init, run3. rewrite Hsp.
   unfold umalloc. cbn [thread_step].
-  destruct (user_malloc (work_isize n w) TAIL (m_stack m)) as [[off|] s1] eqn:E1.
-  - cbn [is_null]. cbn [thread_step m_stack set_stack add_log].
-    destruct (user_malloc (work_dsize c n w) TAIL s1) as [[off2|] s2] eqn:E2.
+  destruct (user_malloc (m_ba m) (work_isize n w) TAIL (m_stack m)) as [[off|] s1] eqn:E1.
+  - cbn [is_null]. cbn [thread_step m_stack set_stack add_log m_ba].
+    destruct (user_malloc (m_ba m) (work_dsize c n w) TAIL s1) as [[off2|] s2] eqn:E2.
     + cbn [m_ba set_stack add_log m_stack].
       destruct (misalign (m_ba m) off2 =? 0) eqn:Em; cbn [negb].
       * eexists; eexists; eexists; eexists. split; [reflexivity|]. cbn [fst snd m_stack set_stack add_log]. auto.
       * cbn [thread_step]. eexists; eexists; eexists; eexists. split; [reflexivity|].
         cbn [fst snd m_stack set_stack add_log]. auto.
     + eexists; eexists; eexists; eexists. split; [reflexivity|]. cbn [fst snd m_stack set_stack add_log].
-      unfold user_malloc in E2. destruct (stack_full _ s1); [|destruct (s_top2 s1 - _); discriminate].
-      inversion E2; subst. auto.
+      apply user_malloc_refused in E2. destruct E2 as [-> _]. auto.
   - cbn [is_null]. eexists; eexists; eexists; eexists. split; [reflexivity|]. cbn [fst snd thread_step].
-    unfold user_malloc in E1. destruct (stack_full _ (m_stack m)); [|discriminate].
-    inversion E1; subst. auto.
+    apply user_malloc_refused in E1. destruct E1 as [-> _]. auto.
+Qed.
+
+(* the sequential p?gstrf_WorkInit on a user stack in ANY state satisfying the stack invariant (any alignment of the
+   buffer, any sizes): whatever it hands out lies between the new and the old top2 (so above top1: no HEAD block is
+   touched, the arithmetic invariant survives), iwork and dwork are disjoint, dwork is on an 8-byte boundary, and the
+   fix-up branch is not taken (no EvShift is logged) *)
+Lemma work_init_user_safe_lemma : forall fail c n w m L,
+  m_space m = USER -> stack_inv L (m_stack m) -> 0 <= work_isize n w -> 0 <= work_dsize c n w ->
+  exists r iw dw m',
+    work_init fail c n w m = Ok (r, iw, dw) m' /\
+    stack_inv L (m_stack m') /\ s_top1 (m_stack m') = s_top1 (m_stack m) /\ s_top2 (m_stack m') <= s_top2 (m_stack m) /\
+    (forall i, iw = POff i -> block_in (s_top2 (m_stack m')) (s_top2 (m_stack m)) (i, work_isize n w)) /\
+    (forall d, dw = POff d ->
+       r = 0 /\ misalign (m_ba m) d = 0 /\ block_in (s_top2 (m_stack m')) (s_top2 (m_stack m)) (d, work_dsize c n w) /\
+       exists i, iw = POff i /\ disjoint (i, work_isize n w) (d, work_dsize c n w)) /\
+    (dw = PNull -> r = work_isize n w + n \/ r = work_isize n w + work_dsize c n w + n) /\
+    (forall o b e, In (EvShift o b e) (m_log m') -> In (EvShift o b e) (m_log m)).
+Proof.
+  intros fail c n w m L Hsp (Hsz & H1 & H12 & H2 & Hu) Hi0 Hd0.
+  unfold work_init. rewrite Hsp. unfold umalloc.
+  destruct (user_malloc (m_ba m) (work_isize n w) TAIL (m_stack m)) as [[off|] s1] eqn:E1.
+  - cbn [is_null m_stack set_stack add_log m_ba].
+    apply user_malloc_granted in E1. cbv zeta in E1. destruct E1 as (_ & Hex1 & Hf1 & Hal1 & -> & ->).
+    unfold stack_full in Hf1. apply Z.leb_gt in Hf1.
+    set (x1 := tail_extra (m_ba m) (work_isize n w) (m_stack m)) in *.
+    set (s1 := mkStack (s_size (m_stack m)) (s_used (m_stack m) + (work_isize n w + x1)) (s_top1 (m_stack m))
+                       (s_top2 (m_stack m) - (work_isize n w + x1))).
+    destruct (user_malloc (m_ba m) (work_dsize c n w) TAIL s1) as [[off2|] s2] eqn:E2.
+    + apply user_malloc_granted in E2. cbv zeta in E2. destruct E2 as (_ & Hex2 & Hf2 & Hal2 & -> & ->).
+      unfold stack_full in Hf2. apply Z.leb_gt in Hf2.
+      set (x2 := tail_extra (m_ba m) (work_dsize c n w) s1) in *.
+      cbn [m_ba set_stack add_log m_stack]. rewrite Hal2. cbn [Z.eqb negb].
+      subst s1. cbn [s_size s_used s_top1 s_top2] in *.
+      eexists; eexists; eexists; eexists. split; [reflexivity|].
+      cbn [m_stack set_stack add_log m_log s_size s_used s_top1 s_top2].
+      split; [unfold stack_inv; cbn [s_size s_used s_top1 s_top2]; lia|].
+      split; [reflexivity|]. split; [lia|].
+      split; [intros i Hi; inversion Hi; subst; unfold block_in; cbn [fst snd]; lia|].
+      split.
+      { intros d Hd; inversion Hd; subst. split; [reflexivity|]. split; [exact Hal2|].
+        split; [unfold block_in; cbn [fst snd]; lia|].
+        eexists; split; [reflexivity|]. unfold disjoint; cbn [fst snd]. lia. }
+      split; [discriminate|].
+      intros o b e [H|[H|H]]; [discriminate|discriminate|exact H].
+    + apply user_malloc_refused in E2. destruct E2 as [-> _].
+      subst s1. eexists; eexists; eexists; eexists. split; [reflexivity|].
+      cbn [m_stack set_stack add_log m_log s_size s_used s_top1 s_top2].
+      split; [unfold stack_inv; cbn [s_size s_used s_top1 s_top2]; lia|].
+      split; [reflexivity|]. split; [lia|].
+      split; [intros i Hi; inversion Hi; subst; unfold block_in; cbn [fst snd]; lia|].
+      split; [discriminate|]. split; [auto|].
+      intros o b e [H|H]; [discriminate|exact H].
+  - apply user_malloc_refused in E1. destruct E1 as [-> _]. cbn [is_null].
+    eexists; eexists; eexists; eexists. split; [reflexivity|].
+    split; [unfold stack_inv; auto 10|]. split; [reflexivity|]. split; [lia|].
+    split; [discriminate|]. split; [discriminate|]. split; [auto|]. auto.
 Qed.
